@@ -10,7 +10,7 @@ import ast
 
 from ..common import Report, AnalysisError, src, rel
 from ..strabs.model import Program
-from ..rawflow import raw_uses, flatten, compact_nf, nf_equiv
+from ..rawflow import raw_uses, flatten, compact_nf, nf_equiv, statement_nf, strip_doc
 from .. import scope
 
 
@@ -47,6 +47,17 @@ def check(tier):
         own = compact_nf(prog, mn)
         if mn in scope.C03_UNDECIDED:
             rep.undecide('C03.raw-flow', mn, scope.C03_UNDECIDED[mn])
+            # validate() and compact() written as siblings: at least the first thing each does with the raw text must be the same cleaning
+            firsts = []
+            for f_ in (vfn, cfn):
+                p_ = f_.args.args[0].arg
+                st0 = next((st for st in strip_doc(f_.body) if any(isinstance(n, ast.Name) and n.id == p_ for n in ast.walk(st))), None)
+                firsts.append((st0, statement_nf(prog, vm if f_ is vfn else cm, f_, st0) if st0 is not None else None))
+            if all(nf is not None for _st, nf in firsts):
+                rep.check(nf_equiv(firsts[0][1], firsts[1][1]), 'C03.sibling-cleaning', file, 'validate', src(firsts[0][0]), firsts[0][0].lineno,
+                          'validate() starts with `%s` (%s) but compact() with `%s` (%s): inputs with the same compact form can be treated differently'
+                          % (src(firsts[0][0]), describe(firsts[0][1]), src(firsts[1][0]), describe(firsts[1][1])),
+                          what='%s: validate() and compact() start with the same cleaning' % mn)
             continue
         leaves = flatten(raw_uses(prog, vm, vfn))
         if not leaves:
